@@ -203,7 +203,11 @@ def run(ctx):
             fnof[cid] = fname
             try:
                 with np.errstate(all="ignore"):
-                    d = np.asarray(fn(m.copy(), np.array(sg, float), np.array(L, float)), float)
+                    marg = m.copy(); sarg = np.array(sg, float); larg = np.array(L, float)
+                    d = np.asarray(fn(marg, sarg, larg), float)
+                    if not (np.array_equal(marg, m) and np.array_equal(sarg, np.array(sg, float)) and np.array_equal(larg, np.array(L, float))):
+                        ctx.violation(fname + ":mutates-input", "%s modified the front / sign / preference array it was given" % fname,
+                                      {"pts": pts, "sg": sg, "L": L})
             except Exception as e:
                 ctx.violation(fname + ":exception", "%s raised %r" % (fname, e), {"pts": pts, "sg": sg, "L": L})
                 continue
